@@ -23,13 +23,13 @@ func traceMW(id string) rux.HandlerFunc {
 // buildTwin builds the router of a C07 case; capacity < 0 = caching disabled.
 func buildTwin(tb *Table, cfg RouterCfg, capacity int, nGlobal int, routeMW []int) *rux.Router {
 	cfg.CacheCap = capacity
-	r := rux.New(cfg.Options()...)
+	r := NewRouterVia(tb.Via, cfg.Options()...)
 	for i := 0; i < nGlobal; i++ {
 		r.Use(traceMW(fmt.Sprintf("g%d", i)))
 	}
 	for i, rt := range tb.Routes {
 		vs, _ := rt.Pat.Vars()
-		route := r.AddNamed(rt.Name, rt.Pat.String(), routeHandler(rt.Name, varNames(vs)), rt.Methods...)
+		route := rt.Register(r, routeHandler(rt.Name, varNames(vs)))
 		for j := 0; j < routeMW[i]; j++ {
 			route.Use(traceMW(fmt.Sprintf("%s.m%d", rt.Name, j)))
 		}
